@@ -60,7 +60,17 @@ SHARD_TIMEOUT = {'quick': 300, 'thorough': 1500}
 EXPECTED_ERRORS = ('OptimisticCheckError', 'UnrepeatableReadError', 'OperationalError', 'CommitException',
                    'TransactionIntegrityError', 'UnexpectedError', 'RollbackException', 'ObjectNotFound', 'IntegrityError',
                    'CacheIndexError', 'ConstraintError', 'OperationWithDeletedObjectError')
-PLAIN = ('x', 'y', 'z')
+PLAIN = ('x', 'y', 'z', 'q', 'g', 'd')        # attributes that take part in optimistic checks (int, float optimistic=True, Decimal)
+EXEMPT = ('e', 'n', 'f', 'v')                   # excluded by declaration (float default, optimistic=False, volatile)
+FRACTIONAL = ('e', 'f', 'g', 'd')
+
+
+def const_for(a, counter, si):
+    """A constant unique per session; fractional attributes get values below AND above the initial ones."""
+    k = next(counter)
+    # quarters are exact in binary and in Decimal(10, 2); low values are below every initial value of these attributes
+    if a in FRACTIONAL: return ((k % 1000) * 4 + si) / 4.0 if k % 2 else k + 0.25
+    return k
 
 
 def S(name, ops, **opts):
@@ -95,6 +105,20 @@ def handwritten():
     add(S('A', [('lock', 1, 'get_for_update'), ('inc', 1, 'x')]), S('B', [('inc', 1, 'x')]))
     add(S('A', [('read', 1, 'x'), ('lock', 1, 'get_for_update'), ('write', 1, 'y', 1001)]), S('B', [('write', 1, 'x', 2001)]))
     add(S('A', [('lock', 1, 'query_for_update'), ('copy', 1, 'y', 1, 'x')]), S('B', [('copy', 1, 'x', 1, 'y')]))
+    # attribute kinds: read attributes excluded by declaration may be overwritten silently, every other read attribute
+    # is protected regardless of what is declared (and read) before it; float values go down as well as up
+    add(S('A', [('read', 1, 'g'), ('write', 1, 'y', 1001)]), S('B', [('dec', 1, 'g')]))
+    add(S('A', [('read', 1, 'g'), ('write', 1, 'y', 1001)]), S('B', [('write', 1, 'g', 9.75)]))
+    add(S('A', [('read', 1, 'g'), ('read', 1, 'd'), ('write', 1, 'x', 1001)]), S('B', [('write', 1, 'g', 0.125), ('dec', 1, 'd')]))
+    add(S('A', [('read', 1, 'd'), ('write', 1, 'z', 1001)]), S('B', [('dec', 1, 'd')]))
+    add(S('A', [('read', 1, 'e'), ('read', 1, 'x'), ('write', 1, 'y', 1001)]), S('B', [('write', 1, 'x', 2001)]))
+    add(S('A', [('read', 1, 'f'), ('read', 1, 'q'), ('write', 1, 'y', 1001)]), S('B', [('inc', 1, 'q')]))
+    add(S('A', [('read', 1, 'n'), ('read', 1, 'g'), ('write', 1, 'z', 1001)]), S('B', [('dec', 1, 'g')]))
+    add(S('A', [('read', 1, 'v'), ('read', 1, 'd'), ('read', 1, 'q'), ('write', 1, 'x', 1001)]), S('B', [('write', 1, 'q', 2001)]))
+    add(S('A', [('read', 1, 'e'), ('read', 1, 'n'), ('read', 1, 'f'), ('write', 1, 'q', 1001)]), S('B', [('write', 1, 'e', 0.25), ('write', 1, 'n', 2001), ('dec', 1, 'f')]))
+    add(S('A', [('copy', 1, 'q', 1, 'g')]), S('B', [('dec', 1, 'g')]))
+    add(S('A', [('dec', 1, 'g')]), S('B', [('dec', 1, 'g')]))
+    add(S('A', [('inc', 1, 'd')]), S('B', [('dec', 1, 'd')]))
     # mid-session commit(): the session goes on with the same cache; locks end with the transaction
     add(S('A', [('read', 1, 'x'), ('write', 1, 'y', 1001), ('commit',), ('write', 1, 'z', 1002)]), S('B', [('write', 1, 'x', 2001)]))
     add(S('A', [('inc', 1, 'x'), ('commit',), ('inc', 1, 'x')]), S('B', [('inc', 1, 'x')]))
@@ -126,7 +150,7 @@ def handwritten():
 
 def random_set(rng, allow_exempt):
     nsess = 3 if rng.random() < 0.15 else 2
-    attrs = list(PLAIN) + (['n', 'f', 'v'] if allow_exempt else [])
+    attrs = list(PLAIN) + (list(EXEMPT) if allow_exempt else [])
     sessions = []
     for si in range(nsess):
         nops = rng.randint(2, 4 if nsess == 2 else 3)
@@ -136,10 +160,10 @@ def random_set(rng, allow_exempt):
             r = 1 if rng.random() < 0.8 else 2
             a = rng.choice(attrs)
             k = rng.random()
-            if k < 0.06 and a != 'f': ops.append(('find', r, a))
+            if k < 0.06 and a not in FRACTIONAL: ops.append(('find', r, a))
             elif k < 0.34: ops.append(('read', r, a))
-            elif k < 0.56: ops.append(('write', r, a, next(const) if a != 'f' else next(const) + 0.25))
-            elif k < 0.70: ops.append(('inc', r, a))
+            elif k < 0.56: ops.append(('write', r, a, const_for(a, const, si)))
+            elif k < 0.70: ops.append((rng.choice(('inc', 'inc', 'dec')), r, a))
             elif k < 0.88:
                 b = rng.choice(attrs)
                 ops.append(('copy', r, a, r if rng.random() < 0.75 else 3 - r, b))
@@ -148,7 +172,7 @@ def random_set(rng, allow_exempt):
             else: ops.append(('read', r, a))
         if not any(o[0] in ('write', 'inc', 'copy') for o in ops) and rng.random() < 0.8:
             a = rng.choice(attrs)
-            ops.append(('write', 1, a, next(const) if a != 'f' else next(const) + 0.25))
+            ops.append(('write', 1, a, const_for(a, const, si)))
         opts = {}
         k = rng.random()
         if k < 0.12: opts = {'optimistic': False}
@@ -188,16 +212,21 @@ def random_rich_set(rng):
     return sessions
 
 
+def same(a, b):
+    if isinstance(a, (int, float)) and isinstance(b, (int, float)) and not isinstance(a, bool): return abs(a - b) < 1e-9
+    return a == b
+
+
 def writes_of(sess, upto=None):
     """{(table, id, attr)} the session's program overwrites."""
     out = set()
     for op in sess['ops'][:upto]:
-        if op[0] in ('write', 'inc', 'copy'): out.add(('R', op[1], op[2]))
+        if op[0] in ('write', 'inc', 'dec', 'copy'): out.add(('R', op[1], op[2]))
         elif op[0] == 'movekid': out.add(('K', op[1], 'parent'))
         elif op[0] == 'setw': out.add(('K', op[1], 'w'))
         elif op[0] == 'newkid': out.add(('K', op[1], 'parent')); out.add(('K', op[1], 'w'))
         elif op[0] == 'newrow':
-            for a in ('x', 'y', 'z', 'n', 'f', 'v'): out.add(('R', op[1], a))
+            for a in ('e', 'x', 'y', 'z', 'n', 'f', 'v', 'g', 'd', 'q'): out.add(('R', op[1], a))
     return out
 
 
@@ -320,7 +349,7 @@ class Judge(object):
                         kv = before['K'].get(row)
                         now = None if kv is None else kv[0 if a == 'parent' else 1]
                         if kv is None: now = 'row deleted'
-                    if now != val[1]:
+                    if not same(now, val[1]):
                         ctx.violation(dict(wit0, session=n, table=table, row=row, attr=a, read=val[1], at_update=now, update=w['sql'],
                                            args=w['args'], where=where_cols, via='collection' if len(ob) > 3 else 'attribute'),
                                       'update-applied-over-changed-read')
@@ -379,7 +408,7 @@ def run(ctx):
     try:
         hw = handwritten()
         if ctx.tier == 'quick':
-            hw_sel = hw; nrand_plain, nrand_exempt, nrand_rich, stmt = 5, 2, 4, 3
+            hw_sel = hw; nrand_plain, nrand_exempt, nrand_rich, stmt = 5, 2, 3, 2
         else:
             hw_sel = hw if ctx.shard == 0 else [hw[i] for i in range(len(hw)) if i % ctx.nshards == ctx.shard % len(hw)]
             nrand_plain, nrand_exempt, nrand_rich, stmt = 11, 4, 8, 6
